@@ -107,6 +107,7 @@ def vnum(ai, li):
 
 # ------------------------------------------------------------------ one case -> C
 CTXS = ["d0", "d1", "d2", "d3", "nest"]
+RAXPROBE = [False]     # set by run(): observe rax after a MEMORY-class return (only once C06-ret-rax is not open)
 PROBE = "S24"
 NPROBE = ["l", "d"]
 
@@ -156,6 +157,8 @@ class Case:
         if self.fwd:
             e["w"] = self.exp_args(self.nfix, len(self.args))
         e["r"] = [1] + self.exp_ret() + [self.exp_sink()]
+        if RAXPROBE[0] and self.b.get("hidden"):
+            e["x"] = [1]
         return e
 
     # --- callee
@@ -205,6 +208,10 @@ class Case:
                 for sfx, sk in leaves(self.args[i]):
                     L.append("  rec(%s);" % report_expr("a%d%s" % (i, sfx), sk))
             L.append("  flush(\"w\", %d);\n}" % n)
+        raxp = RAXPROBE[0] and self.b.get("hidden")
+        if raxp:     # the same function seen as `long f(void *hidden, args...)`: for a MEMORY-class return that is the same call
+            ps = ["void *"] + [ctype(k) for k in self.args[:self.nfix]]
+            L.append("#ifdef GCC_SIDE\nextern long raxp_%d(%s%s) __asm__(\"callee_%d\");\n#endif" % (n, ", ".join(ps), ", ..." if self.var else "", n))
         L.append("void caller_%d(void) {" % n)
         for i, k in enumerate(self.args):
             L.append("  %s a%d;" % (ctype(k), i))
@@ -214,6 +221,9 @@ class Case:
         inner = "(%s, 1L)" % call if self.ret == "v" else "((r = %s), 1L)" % call
         if self.ret != "v":        # a narrow return value is consumed as a long, without a store to a narrow object in between
             L.append("  %s r;" % ("long" if self.ret in NARROW else ctype(self.ret)))
+        if raxp:
+            L.append("#ifdef GCC_SIDE\n  { %s rb; rec(raxp_%d(%s) == (long)&rb); }\n#else\n  rec(1);\n#endif\n  flush(\"x\", %d);"
+                     % (ctype(self.ret), n, ", ".join(["&rb"] + ["a%d" % i for i in range(len(self.args))]), n))
         L.append("  long sink; SAVE_REGS;")
         if self.ctx == "nest":
             L.append("  sink = id3(vv1, %s, vv2);" % inner)
@@ -335,7 +345,7 @@ def run_batch(ctx, tree, cases, d):
             got = {}
             for line in out.splitlines():
                 f = line.split()
-                if len(f) >= 2 and f[0] in ("c", "r", "w") and f[1].isdigit():
+                if len(f) >= 2 and f[0] in ("c", "r", "w", "x") and f[1].isdigit():
                     try:
                         got.setdefault(int(f[1]), {})[f[0]] = [int(x) for x in f[2:]]
                     except ValueError:
@@ -384,7 +394,7 @@ def judge(ctx, case, results):
     def diff(r):
         if r[0] != "ok":
             return r[0]
-        for tag in ("c", "w", "r"):
+        for tag in ("c", "w", "x", "r"):
             if tag in exp and r[1].get(tag) != exp[tag]:
                 return tag
         return None
@@ -416,6 +426,8 @@ def judge(ctx, case, results):
         retbad = what == "r" and r[0] == "ok" and r[1].get("r", [])[1:-1] != exp["r"][1:-1]
         if what == "r" and r[0] == "ok" and r[1].get("r", [None])[:1] == [0]:
             cls = "callee-saved-register-clobbered"
+        elif what == "x":
+            cls = "ret-rax-not-hidden-pointer"
         elif retbad and rpred:
             cls = pick_class(rpred, l, [])
         elif side_ok[l] or not predicted:
@@ -440,6 +452,21 @@ def judge(ctx, case, results):
 
 
 # ------------------------------------------------------------------ run
+# Each open finding stands for one pinned decider in the model: while the finding is open its classes are
+# waived and the model transcribes the pinned code (Fix* = FALSE); once it is no longer open (status
+# fixed / entry removed) the model transcribes the repaired code and nothing is waived for it.
+FIX_FLAG = {"C06-ret-rax": "FixRetRax", "C06-vastart": "FixVaArea", "C06-align16": "FixAlign16",
+            "C06-valist-layout": "FixVaStride", "D22": "FixVaArg", "C06-x87agg": "FixX87"}
+
+
+def open_findings(ctx):
+    # VERIF_FINDINGS_IGNORE=id,id is a development aid (try a proposed fix before known_findings.json changes)
+    ign = set(x for x in os.environ.get("VERIF_FINDINGS_IGNORE", "").split(",") if x)
+    if ign:
+        ctx.findings = [f for f in ctx.findings if f["id"] not in ign or f.get("proposed")]   # a proposed replacement entry stays
+    return {f["id"] for f in ctx.findings}
+
+
 def waived_classes(ctx):
     w = set()
     for f in ctx.findings:
@@ -448,8 +475,13 @@ def waived_classes(ctx):
 
 
 def tlc_run(ctx, cfgname, out=None, workers=4, **over):
+    ids = open_findings(ctx)
     w = waived_classes(ctx)
-    cfg = ctx.cfg("abi", cfgname, Waived="{" + ",".join('"%s"' % x for x in sorted(w)) + "}", **over)
+    flags = {flag: fid not in ids for fid, flag in FIX_FLAG.items()}
+    flags["FixVaArgLd"] = "vaarg:ldouble" not in w        # D22 has two halves; the long double half can be closed on its own
+    flags["FixVaArg"] = not ({"vaarg:agg<=8", "vaarg:agg<=16"} & w)
+    flags.update(over)
+    cfg = ctx.cfg("abi", cfgname, Waived="{" + ",".join('"%s"' % x for x in sorted(w)) + "}", **flags)
     return ctx.tlc("abi", "SysV", cfg, env=dict(OUT=out or os.devnull), workers=workers, timeout=900, heap="4g")
 
 
@@ -526,6 +558,7 @@ def make_cases(beh, seed, probes=()):
 
 def run(ctx):
     q = ctx.quick
+    RAXPROBE[0] = "C06-ret-rax" not in open_findings(ctx)
     tree = ctx.build()
     ctx.phase("build")
     # sensitivity control: the pinned deciders must be rejected
@@ -562,6 +595,9 @@ def run(ctx):
     for c in cases:
         judge(ctx, c, results.get(id(c), {}))
     ctx.phase("replay")
+    if ctx.oracle_disagreements > max(3, len(cases) // 50):
+        raise Infra("gcc x gcc does not reproduce the expectation on %d of %d cases: the generator is broken (%s)"
+                    % (ctx.oracle_disagreements, len(cases), str(ctx.cov.get("oracle_examples", [])[:1])[:600]))
     ctx.assumptions += [
         "Level I (SysV.tla) is a hand transcription of codegen.c / stdarg.h; the four-way linking judges the real code",
         "the C rendering of the kind alphabet (harness/c06.py KT) mirrors SysV.tla KindSeq; gcc x gcc linking validates each generated case",
@@ -581,6 +617,7 @@ def replay(ctx, path):
         check_model(ctx, res, c["cfg"])
     else:
         tree = ctx.build()
+        RAXPROBE[0] = "C06-ret-rax" not in open_findings(ctx)
         case = Case(0, c["beh"], c.get("ctx", "d0"), c.get("fwd", False), c.get("probe", False))
         results = run_cases(ctx, tree, [case], "replay")
         judge(ctx, case, results.get(id(case), {}))
